@@ -860,11 +860,21 @@ def judge(case, eng: dict, models: Dict[str, list]) -> List[dict]:
     return out
 
 
+def nested_bin(t, under=False) -> bool:
+    """a dataset∘dataset operator used as an operand of another operator"""
+    if not isinstance(t, list) or not t or not isinstance(t[0], str):
+        return False
+    if t[0] == "bin" and under:
+        return True
+    kids = t[2] if t[0] == "join" else [x for x in t[1:] if isinstance(x, list)]
+    return any(nested_bin(k, under or t[0] in ("bin", "un", "join", "aggr", "analytic", "set", "checkall", "dropviral", "filter", "same", "sub"))
+               for k in kids if isinstance(k, list))
+
+
 def missing_site(case) -> str:
-    t = case["stmts"][-1][1]
-    if t[0] == "set":
-        return f"{t[1]}({_shape(t[2], 1)},{_shape(t[3], 1)})"
-    return t[0]
+    if any(nested_bin(t) for _, t in case["stmts"]):
+        return "nested-dataset-operator"
+    return top_kind(case)
 
 
 def top_kind(case) -> str:
